@@ -13,8 +13,11 @@ import (
 	"flag"
 	"fmt"
 	"io"
+	"math/rand"
 	"os"
 	"reflect"
+	"runtime"
+	"strings"
 	"sync"
 	"time"
 
@@ -486,7 +489,7 @@ func raceReopen(rc raceCase, r *rig, ctl *sched.Ctl, fail func(key, text string)
 	}
 	r.g.capture(r.tr)
 	r.waitReader()
-	ctl.Release(rc.Hold, 0) // now the late read loop of generation 1 continues
+	ctl.Release(rc.Hold, sched.AnyID) // now the late read loop of generation 1 continues
 	time.Sleep(5 * time.Millisecond)
 	p, problem := r.project(2)
 	if p.Open != "true" || p.Cause[1] != "none" {
@@ -527,9 +530,9 @@ func race(rc raceCase, traceW *bufio.Writer) {
 	}
 	r.g.capture(r.tr)
 	r.waitReader()
-	ctl.Arm(rc.Hold, 0)
+	ctl.Arm(rc.Hold, sched.AnyID)
 	inject(r.pipe, rc.Fault, rc.Cut)
-	if !ctl.WaitParked(rc.Hold, 0, 2*time.Second) {
+	if !ctl.WaitParked(rc.Hold, sched.AnyID, 2*time.Second) {
 		res.Notes = append(res.Notes, fmt.Sprintf("race %+v: read loop did not reach %s", rc, rc.Hold))
 		ctl.ReleaseAll()
 		return
@@ -546,7 +549,7 @@ func race(rc raceCase, traceW *bufio.Writer) {
 		raceReopen(rc, r, ctl, fail)
 		return
 	}
-	ctl.Release(rc.Hold, 0)
+	ctl.Release(rc.Hold, sched.AnyID)
 	userRes := "none"
 	if rc.User == "close" {
 		select {
@@ -724,26 +727,26 @@ func staleReader() {
 	ctl.Install()
 	defer ctl.ReleaseAll()
 	r := newRig(config{})
-	ctl.Arm("life.rl.start", 0)
+	ctl.Arm("life.rl.start", sched.AnyID)
 	if classifyOpen(withDeadline(r.tr.Open)) != "ok" {
 		return
 	}
 	r.g.capture(r.tr)
-	if !ctl.WaitParked("life.rl.start", 0, 2*time.Second) {
+	if !ctl.WaitParked("life.rl.start", sched.AnyID, 2*time.Second) {
 		res.Notes = append(res.Notes, "stale-reader scenario: read loop did not reach its start gate")
 		return
 	}
 	if classifyClose(withDeadline(r.tr.Close)) != "closed" {
 		return
 	}
-	ctl.Release("life.rl.start", 0) // disarm: the second generation's loop starts normally
+	ctl.Release("life.rl.start", sched.AnyID) // disarm: the second generation's loop starts normally
 	// the released old loop is now racing; give the reopen a head start by reopening first
-	ctl.Arm("life.rl.start", 0)
+	ctl.Arm("life.rl.start", sched.AnyID)
 	if classifyOpen(withDeadline(r.tr.Open)) != "ok" {
 		return
 	}
 	r.g.capture(r.tr)
-	ctl.Release("life.rl.start", 0)
+	ctl.Release("life.rl.start", sched.AnyID)
 	time.Sleep(5 * time.Millisecond)
 	readers := r.pipe.Waiters()
 	res.Runs++
@@ -753,6 +756,209 @@ func staleReader() {
 	withDeadline(r.tr.Close)
 }
 
+
+// ---- trace mode: free-running scenarios recorded through the hooks, validated by TLC against AdapterLifeTrace ----
+
+// traceScenario runs one seeded script of user calls (Open, failing Open, Close, failing Close) and stream faults against a fresh
+// adapter transport without a monitor, lets the read loops run as the scheduler pleases, and writes the events in hook order:
+// hook events carry the generation (numbered in the order of life.open events, 0 = the caller), driver events are emitted under
+// the same sequence counter - a fault before it takes effect, the result of a call after it returned.
+func traceScenario(seed int64, w *bufio.Writer) (events int, problem string) {
+	rng := rand.New(rand.NewSource(seed))
+	ctl := sched.New()
+	ctl.Install()
+	r := newRig(config{})
+	pause := func() {
+		switch rng.Intn(5) {
+		case 0:
+			runtime.Gosched()
+		case 1:
+			time.Sleep(30 * time.Microsecond)
+		case 2:
+			time.Sleep(300 * time.Microsecond)
+		}
+	}
+	believedOpen, faulted, opens := false, false, 0
+	kinds := []string{"eof", "err", "badframe"}
+	// Reopening while the read loop of an earlier generation is still alive is the recorded stale-reader finding (nothing stops
+	// that loop from reading the reopened transport unless it is blocked in a read at the moment of the Close) and is kept out
+	// of these traces: before an Open the user waits until every earlier loop has left (its signalled / notopen / done event).
+	waitLoopsGone := func() {
+		for dl := time.Now().Add(2 * time.Second); time.Now().Before(dl); time.Sleep(50 * time.Microsecond) {
+			alive := map[uint64]bool{}
+			for _, e := range ctl.Events() {
+				switch e.Point {
+				case "life.open":
+					alive[e.ID] = true
+				case "life.rl.signalled", "life.close.notopen", "life.close.done":
+					if e.ID != 0 {
+						delete(alive, e.ID)
+					}
+				}
+			}
+			if len(alive) == 0 {
+				return
+			}
+		}
+	}
+	// the start-up latency of a read loop is the recorded stale-reader finding and not part of these traces: after a
+	// successful Open the user waits until the loop of the new generation has reported its start
+	waitStarted := func() {
+		var id uint64
+		for _, e := range ctl.Events() {
+			if e.Point == "life.open" {
+				id = e.ID
+			}
+		}
+		ctl.WaitEvent(0, 2*time.Second, func(e sched.Event) bool { return e.Point == "life.rl.start" && e.ID == id })
+		for dl := time.Now().Add(2 * time.Second); time.Now().Before(dl) && r.pipe.WaitersCurrent() == 0; {
+			time.Sleep(20 * time.Microsecond)
+		}
+	}
+	steps := 6 + rng.Intn(8)
+	for i := 0; i < steps; i++ {
+		pause()
+		if !believedOpen {
+			if opens >= 4 {
+				break
+			}
+			if rng.Intn(6) == 0 {
+				r.pipe.SetOpenFailures(1)
+			}
+			waitLoopsGone()
+			res := classifyOpen(withDeadline(r.tr.Open))
+			switch res {
+			case "ok":
+				ctl.Emit("u.openret", 0, 0)
+				believedOpen, faulted = true, false
+				opens++
+				waitStarted()
+			case "ALREADY_OPEN":
+				ctl.Emit("u.openret", 0, 1)
+				believedOpen = true
+			case "openerr":
+				ctl.Emit("u.openret", 0, 2)
+			default:
+				return 0, "Open: " + res
+			}
+			continue
+		}
+		switch x := rng.Intn(100); {
+		case x < 40 && !faulted:
+			k := rng.Intn(3)
+			cut := rng.Intn(len(stream) + 1)
+			ctl.Emit("env.fault", uint64(k), cut)
+			inject(r.pipe, kinds[k], cut)
+			faulted = true
+		case x < 75:
+			res := classifyClose(withDeadline(r.tr.Close))
+			switch res {
+			case "closed":
+				ctl.Emit("u.closeret", 0, 0)
+			case "NOT_OPEN":
+				ctl.Emit("u.closeret", 0, 1)
+			default:
+				return 0, "Close: " + res
+			}
+			believedOpen = false
+		case x < 85 && !faulted:
+			// (a failing underlying Close is injected only while no read loop is on its way to close(): the loop's own
+			// close hitting the injected error is the close-fail corner outside C15's fault list)
+			r.pipe.SetCloseErr(faultio.ErrInjected)
+			res := classifyClose(withDeadline(r.tr.Close))
+			switch res {
+			case "closeerr":
+				ctl.Emit("u.closeret", 0, 2)
+			case "NOT_OPEN":
+				// the read loop was faster: the injected error is still pending and would hit the next Close
+				r.pipe.SetCloseErr(nil)
+				ctl.Emit("u.closeret", 0, 1)
+				believedOpen = false
+			case "closed":
+				return 0, "Close returned nil although the underlying Close failed"
+			default:
+				return 0, "Close: " + res
+			}
+		default:
+			if opens >= 4 {
+				continue
+			}
+			if faulted {
+				waitLoopsGone() // the faulted generation is closing itself: Open either finds it still open or reopens
+			}
+			res := classifyOpen(withDeadline(r.tr.Open))
+			switch res {
+			case "ok":
+				ctl.Emit("u.openret", 0, 0)
+				faulted = false
+				opens++
+				waitStarted()
+			case "ALREADY_OPEN":
+				ctl.Emit("u.openret", 0, 1)
+			default:
+				return 0, "Open: " + res
+			}
+		}
+	}
+	// let the read loops finish what they are doing: every loop has left, except that of a healthy open generation, which is
+	// blocked in its read
+	for dl := time.Now().Add(3 * time.Second); time.Now().Before(dl); time.Sleep(100 * time.Microsecond) {
+		alive := map[uint64]bool{}
+		var last uint64
+		for _, e := range ctl.Events() {
+			switch e.Point {
+			case "life.open":
+				alive[e.ID], last = true, e.ID
+			case "life.rl.signalled", "life.close.notopen", "life.close.done":
+				if e.ID != 0 {
+					delete(alive, e.ID)
+				}
+			}
+		}
+		if len(alive) == 0 || (len(alive) == 1 && alive[last] && !faulted && r.tr.IsOpen() && r.pipe.WaitersCurrent() >= 1) {
+			break
+		}
+	}
+	time.Sleep(200 * time.Microsecond)
+	frugal.VerifHook = nil
+	if os.Getenv("LIFE_DEBUG") != "" {
+		for _, e := range ctl.Events() {
+			fmt.Fprintf(w, "{\"ev\":\"raw:%s\",\"g\":%d,\"k\":\"%d/%d\"}\n", e.Point, e.Obj, e.ID%100000, e.N)
+		}
+	}
+	gen := map[uint64]int{}
+	nopen := 0
+	obj := ctl.ObjID(r.tr)
+	for _, e := range ctl.Events() {
+		if strings.HasPrefix(e.Point, "life.") {
+			if obj != 0 && e.Obj != obj {
+				continue
+			}
+			if e.Point == "life.open" {
+				nopen++ // (a channel address can be reused once the old generation's loop is gone)
+				gen[e.ID] = nopen
+			}
+			g := 0
+			if e.ID != 0 {
+				var ok bool
+				if g, ok = gen[e.ID]; !ok {
+					return 0, fmt.Sprintf("event %s of a generation that was never opened", e.Point)
+				}
+			}
+			fmt.Fprintf(w, "{\"ev\":%q,\"g\":%d,\"k\":\"\"}\n", strings.TrimPrefix(e.Point, "life."), g)
+			events++
+		} else if e.Point == "env.fault" {
+			fmt.Fprintf(w, "{\"ev\":\"fault\",\"g\":%d,\"k\":%q}\n", nopen, kinds[e.ID])
+			events++
+		} else if e.Point == "u.openret" || e.Point == "u.closeret" {
+			fmt.Fprintf(w, "{\"ev\":%q,\"g\":%d,\"k\":\"\"}\n", strings.TrimPrefix(e.Point, "u."), e.N)
+			events++
+		}
+	}
+	fmt.Fprintf(w, "{\"ev\":\"reset\",\"g\":0,\"k\":\"\"}\n")
+	return events + 1, ""
+}
+
 func main() {
 	mode := flag.String("mode", "hist", "hist | race")
 	in := flag.String("in", "", "histories: one JSON array per line")
@@ -760,6 +966,8 @@ func main() {
 	trace := flag.String("trace", "", "")
 	cfgs := flag.String("config", `{"max_attempts":2,"initial_wait_ms":1,"max_wait_ms":3,"with_monitor":true}`, "")
 	replayFile := flag.String("replay", "", "replay one saved violation")
+	nscen := flag.Int("n", 100, "trace mode: number of scenarios")
+	seed := flag.Int64("seed", 1, "trace mode: seed")
 	flag.Parse()
 	logrus.SetOutput(io.Discard)
 	var cfg config
@@ -818,6 +1026,24 @@ func main() {
 				}
 			}
 		}
+	case "trace":
+		tf, err := os.Create(*trace)
+		if err != nil {
+			fmt.Fprintln(os.Stderr, err)
+			os.Exit(2)
+		}
+		tw := bufio.NewWriter(tf)
+		for i := 0; i < *nscen; i++ {
+			n, problem := traceScenario(*seed*100003+int64(i), tw)
+			if problem != "" {
+				violate("trace-run/"+strings.SplitN(problem, ":", 2)[0], fmt.Sprintf("scenario %d (seed %d): %s", i, *seed*100003+int64(i), problem), map[string]interface{}{"seed": *seed*100003 + int64(i)})
+				continue
+			}
+			res.Runs++
+			res.Steps += n
+		}
+		tw.Flush()
+		tf.Close()
 	case "natshist":
 		natsHistories(*in)
 	case "stale":
